@@ -472,6 +472,24 @@ def big_block_faults(ctx, r):
                 expect_failure(ctx, "input-fault", s, res, "block of %d bytes at height %d truncated after %d bytes (%s)" % (ln, tgt, c - off, where), want_height=m.get("errheight"))
 
 
+def degenerate_ranges(ctx, r):
+    """(vi) runs that have nothing, or a single block, to process (--start at / above the tip, --end far beyond it): whatever the
+    exit status is, status 0 must mean final-named files and no *.tmp left — the files are created before the first block is read"""
+    scns = []
+    for cb in FILE_CBS:
+        base = scenario(r, cb, n=3)
+        for (st, en) in ((2, None), (3, None), (5, None), (2, 9), (3, 9), (0, 99), (10**6, None)):
+            s = K.Scenario(coin="bitcoin", callback=cb, start=st, stop=en)
+            s.kvs, s.files = base.kvs, base.files
+            s.meta = {"degenerate-range": [st, en]}
+            scns.append(s)
+    impl, model = bb.check(ctx, "degenerate-range", scns, [bb.cmp_exit, bb.cmp_names, bb.cmp_tmp], nontrivial=lambda s, m: True)
+    for s, res in zip(scns, impl):
+        if res.exit == 0 and (res.tmp_files() or not res.final_files()):
+            ctx.disagree("degenerate-range", bb.describe(s), {"exit": 0, "files": sorted(res.files)}, {"expected": "exit 0 => final-named files, no *.tmp"}, True,
+                         {"scenario": bb.scenario_dump(s), "observable": "exit0-without-finals", "replay_kind": "trace"})
+
+
 def _with_far(s, h, delta=10**7):
     """copy of s whose record for height h names an offset past the end of its file (by `delta`)"""
     t = K.Scenario(coin=s.coin, callback=s.callback)
@@ -511,6 +529,7 @@ def correspondence(ctx):
     crash_family(ctx, r)
     input_fault_family(ctx, r)
     big_block_faults(ctx, r)
+    degenerate_ranges(ctx, r)
     rerun_family(ctx, r)
 
 
